@@ -525,6 +525,9 @@ class STypeName(SV):
 TYPE_NAMES = ["int", "str", "bool", "bytes", "dict", "list", "set", "tuple", "float", "object", "memoryview", "type", "frozenset"]
 
 
+OPQ_LEN = z3.Function("opaque_len", Val, sym.IntS)
+
+
 @_b("len")
 def b_len(eng, st, args, kw):
     from .engine import SBytes, SConstMap
@@ -554,6 +557,11 @@ def b_len(eng, st, args, kw):
         return [(st, SInt(st.clen(v.d.t)))]
     if isinstance(v, SConstMap):
         return [(st, SInt(len(v.items)))]
+    if isinstance(v, SOpaque):
+        # bytes / memoryview / other sized value held as an opaque field: its length is a (non-negative) function of the value
+        n = OPQ_LEN(v.val())
+        st.assume(n >= 0)
+        return [(st, SInt(n))]
     raise Unsupported(f"len of {type(v).__name__}")
 
 
@@ -1872,7 +1880,42 @@ def dict_unpack_literal(eng, node, st, fi):
 
 
 def slice_assign(eng, target, v, st, fi):
-    raise Unsupported("slice assignment")
+    """x[a:b] = v  where x is a value from outside the repository (memoryview of a shared-memory segment): recorded as the event
+    setslice(x, a, b, v); nothing the repository holds changes.  Slice assignment on repository lists is not modelled."""
+    sl = target.slice
+    out = []
+    for s, obj in eng.ev(target.value, st, fi):
+        if s.exc is not None:
+            out.append(s)
+            continue
+        from .engine import SBytes
+        if isinstance(obj, SBytes):
+            obj = SOpaque(label="memoryview")  # a writable view handed out by the outside world: identity not tracked
+        if not isinstance(obj, (SOpaque, SAny)) or (isinstance(obj, SAny) and obj.ty.kind not in ("any", "opaque")):
+            raise Unsupported(f"slice assignment on a repository container ({obj!r})")
+        parts = [sl.lower, sl.upper]
+        if sl.step is not None:
+            raise Unsupported("slice assignment with step")
+        vals = []
+        cur = [(s, [])]
+        for pnode in parts:
+            nxt = []
+            for s2, acc in cur:
+                if pnode is None:
+                    nxt.append((s2, acc + [NONEV]))
+                else:
+                    for s3, pv in eng.ev(pnode, s2, fi):
+                        nxt.append((s3, acc + [pv]))
+            cur = nxt
+        for s2, acc in cur:
+            if s2.exc is not None:
+                out.append(s2)
+                continue
+            eng.externals_used.add("slice assignment into an external buffer (event setslice)")
+            s2.log_event("setslice", [obj] + acc + [v])
+            for s3, _ in eng.external_outcomes(s2, "setslice", "setslice"):
+                out.append(s3)
+    return out
 
 
 def call_generator(eng, st, fv, fr, node):
